@@ -14,6 +14,8 @@ Directives
     //@   loop N                       following lines spliced between the N-th loop header and its `{`
     //@   closure N                    contract of the N-th typed closure (`|..| -> T {`)
     //@   inject before|after [#K] `LINE` [:: TAG]   ghost lines next to the K-th line whose trimmed text is LINE
+    //@   arm `HEADER {`                          lift the block of ONE match arm (tail position, checked) into a function; needs `signature` and `rename` (S6)
+    //@   inject blockend [#K] `LINE`               ghost lines before the closing brace of the block that LINE opens (e.g. end of a loop body)
     //@   rewrite COUNT `OLD` => `NEW` [:: LABEL]    declared single-line rewrite, must match COUNT times
     //@ end
 
@@ -75,6 +77,7 @@ class Extract:
         self.injects = []       # dict(where, k, anchor, tag, lines)
         self.rewrites = []      # dict(count, old, new, label)
         self.droparms = []      # dict(header, label): match arm / block whose body is replaced by vpanic()
+        self.arm = None         # header of ONE match arm (in tail position) whose block is lifted into a function of its own (S6)
         self.log = {}
 
     def render(self):
@@ -84,6 +87,33 @@ class Extract:
         s, ob, cb = loc["sig_start"], loc["open"], loc["close"]
         first_line = line_of(src, s)
         self.log = dict(file=self.file, fn=self.fn, emitted=self.rename or self.fn, impl=self.impl, lines=[first_line, line_of(src, cb)], rewrites={})
+        if self.arm:
+            # S6: the block of one match arm becomes the body of a function whose parameters (declared with `signature`) are the arm's
+            # free variables.  Sound when the match is the tail expression of the enclosing function (checked): `return` and the block's
+            # value then mean the same in both places.
+            seg = src[ob:cb + 1]
+            hits = [m.start() for m in re.finditer(re.escape(self.arm), seg)]
+            if len(hits) != 1:
+                raise LostAnchor(f"{self.file}::{self.fn}: arm header `{self.arm}` matched {len(hits)} times")
+            aob = ob + hits[0] + len(self.arm) - 1
+            if src[aob] != "{" or not self.signature or not self.rename:
+                raise UnitError("arm: header must end with `{`, and `signature` and `rename` are required")
+            acb = match_close(msk, aob)
+            depth, q = 0, aob - 1
+            while q > ob:
+                if msk[q] == "}": depth += 1
+                elif msk[q] == "{":
+                    if depth == 0: break
+                    depth -= 1
+                q -= 1
+            enc_close = match_close(msk, q)
+            if msk[enc_close + 1:cb].strip(" \n\t}") != "":
+                raise LostAnchor(f"{self.file}::{self.fn}: arm `{self.arm}`: the enclosing match is not the tail expression of the function")
+            self.log["rewrites"]["S6_arm_lifted"] = dict(header=self.arm, lines=[line_of(src, aob), line_of(src, acb)], enclosing_fn=self.fn, tail_position=True)
+            self.log["lines"] = [line_of(src, aob), line_of(src, acb)]
+            ob, cb = aob, acb
+            first_line = line_of(src, aob)
+            s = aob
         # ----- signature (S1, S2)
         sig = src[s:ob]
         sig_nl = sig.count("\n")
@@ -153,7 +183,7 @@ class Extract:
             b = find_block_after(bm, lp)
             ins.append((b, [Line(t, "unit", self.unit, ul, fnname, tag_of(t)) for t, ul in lines], 0))
         # closures
-        clos = list(re.finditer(r"\|[^|\n]*\|\s*->\s*([^{]+?)\s*\{", bm))
+        clos = list(re.finditer(r"\|[^|;{}]*\|\s*->\s*([^{]+?)\s*\{", bm))
         for n, lines in self.closures.items():
             if n < 1 or n > len(clos):
                 raise LostAnchor(f"{self.file}::{self.fn}: closure {n} not found ({len(clos)} typed closures)")
@@ -183,7 +213,26 @@ class Extract:
                 if inj["k"] > len(hits):
                     raise LostAnchor(f"{self.file}::{self.fn}: inject anchor `{inj['anchor']}` #{inj['k']} not found ({len(hits)} hits)")
                 i = hits[inj["k"] - 1]
-            pos = offs[i] if inj["where"] == "before" else offs[i] + len(body_lines[i])
+            if inj["where"] == "blockend":
+                # before the closing brace of the block opened by the LAST `{` of the anchor line
+                lstart, lend = offs[i], offs[i] + len(body_lines[i])
+                ob2 = bm.rfind("{", lstart, lend)
+                if ob2 < 0:
+                    raise UnitError("inject blockend: anchor line must open a block")
+                depth, q = 0, ob2
+                while q < len(bm):
+                    if bm[q] == "{": depth += 1
+                    elif bm[q] == "}":
+                        depth -= 1
+                        if depth == 0: break
+                    q += 1
+                if depth != 0:
+                    raise LostAnchor(f"{self.file}::{self.fn}: inject blockend: unbalanced block after `{inj['anchor']}`")
+                # start of the line holding the closing brace (if only whitespace precedes it)
+                ls0 = body.rfind("\n", 0, q) + 1
+                pos = ls0 if body[ls0:q].strip() == "" else q
+            else:
+                pos = offs[i] if inj["where"] == "before" else offs[i] + len(body_lines[i])
             ls = [Line(t, "unit", self.unit, ul, fnname, tag_of(t) or inj["tag"]) for t, ul in inj["lines"]]
             ins.append((pos, ls, 0))
         # ----- assemble
@@ -352,6 +401,12 @@ def parse_unit(path):
                 continue
             if cur is None:
                 raise UnitError(f"{path}:{ln}: directive outside extract block: {d}")
+            if d.startswith("arm "):
+                m = re.match(r"arm\s+`(.*)`$", d)
+                if not m:
+                    raise UnitError(f"{path}:{ln}: bad arm directive")
+                cur.arm = m.group(1)
+                continue
             if d == "end":
                 items.append(cur)
                 cur = None
@@ -375,7 +430,7 @@ def parse_unit(path):
                 section = cur.closures.setdefault(int(d.split()[1]), [])
             elif d.startswith("inject "):
                 m0 = re.match(r"inject\s+(start)(?:\s*::\s*(.*))?$", d)
-                m = re.match(r"inject\s+(before|after)\s+(?:#(\d+)\s+)?`(.*)`(?:\s*::\s*(.*))?$", d)
+                m = re.match(r"inject\s+(before|after|blockend)\s+(?:#(\d+)\s+)?`(.*)`(?:\s*::\s*(.*))?$", d)
                 if m0:
                     inj = dict(where="start", k=None, anchor=None, tag=m0.group(2), lines=[])
                     cur.injects.append(inj)
